@@ -43,7 +43,9 @@ RULE = ("a case is a history of 2-8 library calls (placers incl. rand/sa with a 
         "fresh interpreter; non-trivial = the history contains a call of the same function as the probe with different "
         "arguments; half of the histories are made of TWINS of the probe's problem (equal in everything but one of: dead "
         "links, one dead chip, resource exceptions, net weights, one constraint, one vertex's resources, wrap-around "
-        "links), bit-field tags are also passed as the caller's own sets/lists shared between two bit fields; "
+        "links), the public wrappers with all option combinations, the annealing placer on a problem with a pinned vertex "
+        "and same-chip groups placed three times with vertices that are equal but hash differently, bit-field tags "
+        "are also passed as the caller's own sets/lists shared between two bit fields; "
         "distinct = distinct (history, probe) specs")
 
 
@@ -167,6 +169,11 @@ def run(ctx):
                 i = next(i for i, (a, b) in enumerate(zip(before, after)) if a != b)
                 ctx.violation("argument-modified", "call %r modified its argument #%d" % (spec, i), case)
         res = json.loads(json.dumps(res))
+        if isinstance(res, list) and res[:1] == ["not-reproducible"]:
+            ctx.violation("seeded-result-not-reproducible",
+                          "probe %r: the same problem, the same seeded generator, vertices equal call to call but "
+                          "hashing differently (vertices_resources an OrderedDict): placements differ: %s" % (
+                              probe, json.dumps(res[1:])[:300]), case)
         if isinstance(fr, dict) and "crash" in fr:
             ctx.mismatch("c17.fresh", "fresh interpreter probe crashed: %s" % fr["crash"], case)
         elif res != fr:
